@@ -86,7 +86,7 @@ pub fn compare(text: &str) -> Cmp {
             }
         }
         (Spec::Ok(want), Err(msg)) => {
-            if !want.depth_limits.is_empty() {
+            if !want.depth_limits.is_empty() || want.may_refuse {
                 return Cmp::AgreeErr(msg, None);
             }
             Cmp::Bad {
